@@ -18,10 +18,17 @@ def run(c):
         raise Broken("introspection did not list the mutations")
     obs = lines[1:]
     evs = [json.loads(l) for l in obs]
+    hung = [e for e in evs if e["ev"] == "Hung"]
+    for e in hung:      # the harness stops at the first request that does not come back: what was observed before it is still validated
+        c.report("api:hung:%s:%s:%s" % (e["name"], "auth" if e["auth"] else "anon", e["variant"]),
+                 "a request was never answered (or the state could not be read afterwards): %s; the requests before it: %s" % (
+                     e["detail"], ["%s/%s/%s" % (x["name"], "auth" if x["auth"] else "anon", x["variant"]) for x in evs[-6:-1]]), {"observation": e})
+    obs = [l for l, e in zip(obs, evs) if e["ev"] != "Hung"]
+    evs = [e for e in evs if e["ev"] != "Hung"]
     # every mutation of the schema was sent both ways
     for m in schema["mutations"]:
         for auth in (True, False):
-            if not any(e["ev"] == "Mutation" and e["name"] == m and e["auth"] == auth and e["valid"] for e in evs):
+            if not hung and not any(e["ev"] == "Mutation" and e["name"] == m and e["auth"] == auth and e["valid"] for e in evs):
                 raise Broken("mutation %s was not exercised with auth=%s" % (m, auth))
     n_ok, failures = tv.validate_dropping(c, "ApiTrace", "ApiTrace.cfg", obs, "api", max_fail=40)
     c.cov["traces_validated_against_impl"] = n_ok
@@ -29,7 +36,8 @@ def run(c):
     c.cov["requests"] = len(evs)
     c.cov["unauthenticated_requests"] = sum(1 for e in evs if not e["auth"])
     c.sample({k: evs[0][k] for k in ("ev", "name", "auth", "variant", "refused", "changed", "detail")})
-    c.sample({k: [e for e in evs if e["auth"] and e["valid"] and e["ev"] == "Mutation"][0][k] for k in ("ev", "name", "auth", "refused", "changed", "newops", "byuser", "reflects")})
+    for e in [e for e in evs if e["auth"] and e["valid"] and e["ev"] == "Mutation"][:1]:
+        c.sample({k: e[k] for k in ("ev", "name", "auth", "refused", "changed", "newops", "byuser", "reflects")})
     for ev, reason in failures:
         if not ev["auth"]:
             what = "without a user: " + ("the request was served" if not ev["refused"] else "") + (" the repository changed" if ev["changed"] else "")
@@ -153,6 +161,18 @@ def run_sequences(c):
     sessions = split_sessions([l.rstrip("\n") for l in open(tf)])
     if len(sessions) != len(scheds):
         raise Broken("api-seq ran %d sessions for %d schedules" % (len(sessions), len(scheds)))
+    nhung = 0
+    for i, sess in enumerate(sessions):     # a request that never came back ends its session: reported here, the requests before it are validated
+        last = json.loads(sess[-1])
+        if last.get("hung"):
+            nhung += 1
+            sessions[i] = sess[:-1]
+            if nhung <= 3:
+                c.report("apiseq:%s:%s:hung" % (last["name"], "auth" if last["auth"] else "anon"),
+                         "request #%d of a sequence (repository user: %s), %s %s: never answered (%s); the requests before it: %s" % (
+                             len(sess) - 1, last["configured"], last["name"], "with a user" if last["auth"] else "without a user", last["detail"],
+                             [json.loads(x)["name"] for x in sess[1:-1]][-5:]), {"sequence": scheds[i], "session": i})
+    c.cov["requests_never_answered"] = nhung
     n_ok, failures = validate_sessions(c, sessions, "apiseq")
     c.cov["traces_validated_against_impl"] += n_ok
     c.cov["request_sequences"] = len(scheds)
@@ -196,6 +216,11 @@ def replay(c, rep):
                 f.write(json.dumps(rep["replay"]["sequence"]) + "\n")
         c.vh(["api-seq", sf, tf], timeout=600)
         sessions = split_sessions([l.rstrip("\n") for l in open(tf)])
+        for i, sess in enumerate(sessions):
+            last = json.loads(sess[-1])
+            if last.get("hung"):
+                sessions[i] = sess[:-1]
+                c.report(rep["key"], "request #%d %s: never answered (%s)" % (len(sess) - 1, last["name"], last["detail"]), rep["replay"])
         n_ok, failures = validate_sessions(c, sessions, "replay")
         for sess, idx, ev in failures:
             c.report(rep["key"], "request #%d %s: returned %s stored %s [%s]" % (idx, ev["name"], ev["returned"], ev["stored"], ev["detail"][:100]), rep["replay"])
@@ -209,6 +234,10 @@ def replay_obs(c, rep):
     out = os.path.join(c.scratch, "api.ndjson")
     c.vh(["api", out])
     obs = [l.rstrip("\n") for l in open(out)][1:]
+    for e in [json.loads(l) for l in obs]:
+        if e["ev"] == "Hung":
+            c.report("api:hung:%s:%s:%s" % (e["name"], "auth" if e["auth"] else "anon", e["variant"]), e["detail"], {"observation": e})
+    obs = [l for l in obs if json.loads(l)["ev"] != "Hung"]
     n_ok, failures = tv.validate_dropping(c, "ApiTrace", "ApiTrace.cfg", obs, "replay", max_fail=40)
     for ev, reason in failures:
         c.report("api:%s:%s:%s:%s" % (ev["ev"], ev["name"], "auth" if ev["auth"] else "anon", ev["variant"]), reason, {"observation": ev})
